@@ -69,7 +69,43 @@ def classify(case, step):
     return 'A3' if case.get('pyrrole_ring_cut') else None
 
 
+def marker_case(rng):
+    """a ring of five fragments in which the first one carries TWO ring bonds of the base graph, one of order 1 and one of
+    order 2 (two cut bonds between the same pair of fragments): every way of writing the two markers — one or two digits,
+    either order, the order symbol in front of the marker it belongs to"""
+    frags = '{#A=[$p][$q]CC[$r][$s],#B=[$p]N[$t],#C=[$q][$t]C[$u],#D=[$u]O[$v],#E=[$v][$r]CC[$s]}'
+    whole = 'C1(N2)C2OC3CC31'
+    ids = rng.sample([1, 2, 3, 7, 9, 10, 11, 12, 25, 99], 2)
+
+    def mk(i):
+        return str(i) if i < 10 else '%%%d' % i
+    x, y = mk(ids[0]), mk(ids[1])           # x: A-C (order 1), y: A-E (order 2)
+    marks = [x, '=' + y]
+    if rng.random() < 0.5:
+        marks.reverse()
+    if '%' in marks[0] and marks[1][0].isdigit():
+        marks.reverse()                      # a bare digit directly behind '%nn' would be read as part of that marker
+    s = '{[#A]%s[#B][#C]%s[#D][#E]%s}.%s' % (''.join(marks), x, y, frags)
+    return {'kind': 'marker-combo', 's': s, 'whole': '{[#M]}.{#M=%s}' % whole, 'all_atom': True, 'legacy': True}
+
+
+def marker_oracle(ctx, case, steps, ctor_err):
+    if steps is None or steps[-1]['result'] != 'ok':
+        ctx.fail(suites.slim(case), 'valid cut description (two ring markers on one base-graph node) rejected')
+        return
+    fine = steps[-1]['fine_graph']
+    with lib.quiet():
+        _, whole = impl.resolver_from_string(case['whole']).resolve()
+    if not nx.is_isomorphic(fine, whole, node_match=nm, edge_match=em):
+        ctx.fail(suites.slim(case), f'cut and uncut descriptions resolve to different molecules ({fine.number_of_nodes()} atoms / '
+                                    f'{fine.number_of_edges()} bonds vs {whole.number_of_nodes()} / {whole.number_of_edges()})')
+
+
 def run(ctx):
+    rng_m = ctx.rng('markers')
+    for _ in range(ctx.budget(20, 200)):
+        suites.run_resolve_case(ctx, 'marker-combo', marker_case(rng_m), oracle=marker_oracle)
+    ctx.feature('two-ring-markers-on-one-base-node')
     rng = ctx.rng('cut')
     for i in range(ctx.budget(400, 8000)):
         if ctx.out_of_time():
@@ -96,16 +132,19 @@ def run(ctx):
 def corpus_case(ctx, payload):
     case = payload.get('case', {})
     if isinstance(case, dict) and 's' in case and case.get('kind') != 'compat':
-        suites.run_resolve_case(ctx, 'corpus', case, oracle=oracle)
+        suites.run_resolve_case(ctx, 'corpus', case, oracle=marker_oracle if case.get('kind') == 'marker-combo' else oracle)
 
 
 def replay(payload):
     import check
     case = payload['case']
-    if 'mol' not in case:
-        print('replay needs the full case (molecule); re-generate with the recorded seed')
     ctx = check.Ctx(PROP, 'quick', 0)
-    suites.run_resolve_case(ctx, 'replay', case, oracle=oracle, compare=False)
+    if case.get('kind') == 'marker-combo':
+        suites.run_resolve_case(ctx, 'replay', case, oracle=marker_oracle, compare=False)
+    else:
+        if 'mol' not in case:
+            print('replay needs the full case (molecule); re-generate with the recorded seed')
+        suites.run_resolve_case(ctx, 'replay', case, oracle=oracle, compare=False)
     for c, what, _ in ctx.failures:
         print('FAILS:', what)
     print('input:', case.get('s'))
